@@ -43,10 +43,11 @@ func (c14) Info(tier string) fw.Info {
 			"compared component-wise: syntax errors, sorted diagnostic multiset (level, message, span), the same with notes, VM outcome with the full message and stack trace, VM output, VM host-call log, the same three for the interpreter, canonical dump of the compiler output. "+
 			"non-trivial = at least 3 repetitions completed and the program produced >= 2 diagnostics or ran with >= 3 lines of output; distinct = distinct sources", n, m),
 		Assumptions: []string{
-			"Go draws a new random iteration start for every range over a map and a new hash seed per map, so N repetitions in one process sample N iteration orders; a two-way order dependence escapes N repetitions with probability 2^-(N-1)",
+			"Go draws a new random iteration start for every range over a map and a new hash seed per map, so N repetitions in one process sample N iteration orders. For maps with at most 8 entries Go only rotates the insertion order, so an order that is reached from a single start offset is seen with probability 1/8 per repetition: it escapes N=20 repetitions plus 6 fresh-process observations with probability (7/8)^25 = 3.5%, N=100 with 2e-6",
 			"wall-clock dependent programs (any use of `time.`) are excluded from the corpus",
 			"the canonical code dump renames mangled global names by first occurrence (the counter is shared by all modules) and, while KF-c14-init-order is open, ignores the order of module initialiser calls outside the poisoned workload",
-			"a worker crash in the first repetition is not a C14 event (inconclusive); a crash after completed repetitions is",
+			"the M fresh processes run first (3 repetitions each): a program that kills its host in every fresh process in its first repetition (up to 12 are tried) has the same outcome every time and is not a C14 event; a crash in some runs only is",
+			"code-shape differences are reported as violations of `compilation is deterministic` with their own signature class (code:/init-order:), separate from output/outcome differences",
 		},
 		CaseTimeoutS: 240,
 		BatchSize:    batchSize(tier),
@@ -135,6 +136,9 @@ func (c14) Cases(tier string, seed uint64) []fw.Case {
 			pl.Alt = altFor(b.Src, r)
 		}
 		tags := append([]string{"fam:" + b.Fam}, b.Tags...)
+		if pl.InitOrder && contains(tags, TagMultiModule) && !contains(tags, TagInitOrder) {
+			tags = append(tags, TagInitOrder) // the order of initialiser calls is compared
+		}
 		cases = append(cases, fw.MkCase(id, kind, pl, tags...))
 	}
 	for _, fam := range FamilyNames {
@@ -284,7 +288,17 @@ func sources(p Payload) (src map[string]string, treeBudget int64, discard bool, 
 		return p.Src, 0, false, nil
 	}
 	pr, cov := c01.Build(*p.Gen)
-	m := prog.Run(pr, nil, 0)
+	var m prog.Result
+	func() {
+		// the reference evaluator only supplies the step budget here; if it cannot run the
+		// program the case is skipped like a program the model discards
+		defer func() {
+			if r := recover(); r != nil {
+				m.Discard = true
+			}
+		}()
+		m = prog.Run(pr, nil, 0)
+	}()
 	if m.Discard {
 		return nil, 0, true, nil
 	}
@@ -515,7 +529,7 @@ func (c14) Run(c fw.Case) fw.Result {
 		}
 	}
 	if h := fw.HashOf(c.ID); h[0] == '0' {
-		res.Sample = map[string]any{"family": p.Fam, "modules": drive.SortedKeys(src), "main": util.Clip(src["main"], 700), "vm_outcome": util.Clip(first.VMOutcome, 200), "diagnostics": strings.Count(first.Diags, "\n") + 1, "repetitions": reps, "fresh_processes": children}
+		res.Sample = map[string]any{"family": p.Fam, "modules": drive.SortedKeys(src), "main": util.Clip(src["main"], 700), "vm_outcome": util.Clip(first.VMOutcome, 200), "diagnostics": len(strings.Fields(strings.ReplaceAll(first.Diags, " ", "_"))), "repetitions": reps, "fresh_processes": children}
 	}
 	return res
 }
